@@ -150,13 +150,13 @@ def rule_fastpath_guard(ctx: RuleContext, p: Program, ts: T.TS, rid: str) -> Non
 
 def run(ctx: RuleContext, p: Program) -> None:
     ts = T.TS(p)
-    rule_own_text(ctx, p, ts, 'OWN-TEXT')
-    rule_rawtext_ord(ctx, p, ts, 'RAWTEXT-ORD')
-    T.rule_ts_handle(ctx, ts, 'TS-HANDLE')
-    rule_fastpath_guard(ctx, p, ts, 'FASTPATH-GUARD')
-    T.rule_own_store(ctx, ts, 'OWN-STORE')
+    ctx.try_rule(rule_own_text, p, ts, 'OWN-TEXT')
+    ctx.try_rule(rule_rawtext_ord, p, ts, 'RAWTEXT-ORD')
+    ctx.try_rule(T.rule_ts_handle, ts, 'TS-HANDLE')
+    ctx.try_rule(rule_fastpath_guard, p, ts, 'FASTPATH-GUARD')
+    ctx.try_rule(T.rule_own_store, ts, 'OWN-STORE')
     from . import storeforms
-    storeforms.rule_pos_form(ctx, ts, 'POS-FORM')
+    ctx.try_rule(storeforms.rule_pos_form, ts, 'POS-FORM')
     ctx.not_decided += ['incremental line/column arithmetic inside TokenStore.update', 'get_position summation',
                         'equality of reported and recomputed positions over histories']
     ctx.assumptions += ['Python str/list semantics', 'TokenStore.update receives the old size via token.size (checked: '
